@@ -242,9 +242,9 @@ def pair_classes(rng, m, budget=None):
     allp = [(i, j) for i in I for j in I if i < j]
     if budget is None or len(allp) <= budget:
         return allp
-    core_i = [i for i in (0, 1, 63, 64, 65, 127, 128, 129, m - 1) if 0 <= i < m]
+    core_i = [i for i in (0, 1, 63, 64, 65, 127, 128, 129, 255, 256, 257, 511, 512, 513, m - 2, m - 1) if 0 <= i < m]
     must = sorted({(i, j) for i in core_i for j in core_i if i < j} |
-                  {(b - 1, b) for b in (8, 16, 32, 64, 128) if b < m} | {(0, b) for b in (8, 16, 32, 64, 128) if b < m})
+                  {(b - 1, b) for b in (8, 16, 32, 64, 128, 256, 512) if b < m} | {(0, b) for b in (8, 16, 32, 64, 128, 256, 512) if b < m})
     rest = [p for p in allp if p not in set(must)]
     return must + rng.sample(rest, max(0, min(len(rest), budget - len(must))))
 
@@ -320,12 +320,14 @@ def part_size(ctx, one):
             S2 = list(S); S2[i] = xor(S[i], rng.choice((Lx, Lz))[a])
             one(S2, Lx, Lz, kind=tagk + ' row-vs-logical')
     # (b) over-complete stabilizer lists on few qubits: generator g at row j only, row i times the destabilizer of g
-    for n, k, m in ([(10, 1, 70), (10, 1, 133), (12, 2, 141)] if q else
-                    [(10, 1, 65), (10, 1, 70), (10, 1, 129), (10, 1, 133), (12, 2, 141), (12, 1, 200), (13, 3, 260)]):
+    # row counts beyond 256 / 512 too (block-wise implementations: remainder rows past the last full block)
+    for n, k, m, bud in ([(10, 1, 70, None), (10, 1, 133, None), (12, 2, 141, None), (10, 1, 300, 90)] if q else
+                         [(10, 1, 65, None), (10, 1, 70, None), (10, 1, 129, None), (10, 1, 133, None), (12, 2, 141, None),
+                          (12, 1, 200, None), (13, 3, 260, None), (10, 1, 300, None), (11, 1, 523, 400)]):
         G, D, Lx, Lz = code_with_destabilizers(rng, n, k, mixing=4)
         tagk = 'size-overcomplete n={} rows={}'.format(n, m)
         first = True
-        for i, j in pair_classes(rng, m):
+        for i, j in pair_classes(rng, m, bud):
             if rng.random() < 0.5:
                 i, j = j, i
             g = rng.randrange(len(G))
